@@ -19,7 +19,7 @@ union un { int i; float f; };
 enum en { E0, E1 = 3, E2 };
 typedef int (*fn)(int, int);
 static int tbl[] = { 1, 2, 3, };
-static const char *msg = "a  b\\tc" "d";
+const char *msg = "a  b\\tc" "d";
 const char *tabs = /* sep */ "name\tvalue";
 const char *tab2 =
     // a literal with a raw tab is the first thing behind this comment
